@@ -111,7 +111,7 @@ def lineQueries (text : List Nat) : List String :=
       | none => []
       | some (_, rest) =>
         ("k:" ++ hex (utf8Encode rest)) ::
-        (match parseOptions rest with
+        (match parseOptions signerOptMode rest with
          | none => []
          | some (opts, rest2) =>
            ("k:" ++ hex (utf8Encode rest2)) ::
@@ -207,7 +207,7 @@ def step (_ : Unit) (ws : List String) : Unit × String :=
     | ["ll", text, answers] =>
       match (unhex text).bind utf8Decode, readLineAnswers answers with
       | some t, some a =>
-        match importSigners a.importKey a.parseTime t with
+        match importSigners signerOptMode a.importKey a.parseTime t with
         | none => "raises"
         | some es => joinWith " " ("E" :: es.map showEntry)
       | _, _ => "bad-op"
@@ -215,7 +215,7 @@ def step (_ : Unit) (ws : List String) : Unit × String :=
       match (unhex text).bind utf8Decode, readLineAnswers answers, unhex keyid, readText princ, readText ns,
             natArg num, natArg den with
       | some t, some a, some keyid, some princ, some ns, some num, some den =>
-        match importSigners a.importKey a.parseTime t with
+        match importSigners signerOptMode a.importKey a.parseTime t with
         | none => "loaderr"
         | some es =>
           match signersValidate es keyid princ ns (ca == "1") ⟨num, den⟩ with
@@ -229,7 +229,7 @@ def step (_ : Unit) (ws : List String) : Unit × String :=
       | some msg, some h256, some h512, some blob, some princ, some num, some den, some a =>
         let signers : Option (Option (List Entry)) :=
           match (unhex text).bind utf8Decode with
-          | some t => some (importSigners a.importKey a.parseTime t)
+          | some t => some (importSigners signerOptMode a.importKey a.parseTime t)
           | none => none
         let info : Option (Dec Cert × Dec Bytes × Dec Bytes) :=
           match pubinfo.splitOn ":" with
@@ -257,7 +257,8 @@ def step (_ : Unit) (ws : List String) : Unit × String :=
               decodeKey := fun b => if b = [67, 65] then caId else keyId,
               verify := fun _ _ _ => vok == "1",
               certValid := fun c p now =>
-                (firstFailure (validateSteps 0 c.ctype c.validAfter c.validBefore now (some p) c.principals)).isNone }
+                (firstFailure (validateSteps sshsigCertType c.ctype c.validAfter c.validBefore now (some p)
+                  c.principals)).isNone }
           match validateSshsig E msg (ish == "1") blob princ signers ⟨num, den⟩ with
           | .valid => "valid"
           | .invalid => "invalid"
